@@ -312,3 +312,16 @@ def _check_newyear_spill():
     finally:
         lib().tzr_free(ctypes.c_void_p(h))
     return None
+
+def check_convert_panel():
+    """cctz::convert on America/New_York: gap, overlap, unique civil second and one instant against lookup()'s own answers"""
+    lib()
+    def run():
+        r = lib().tzr_convert_panel((build.REPO + "/testdata/zoneinfo/America/New_York").encode())
+        if r == 0: return None
+        if r < 0: return None
+        return {1: "convert(2011-03-13 02:30:00, America/New_York) is not lookup().trans for a skipped civil second",
+                2: "convert(2011-11-06 01:30:00, America/New_York) is not lookup().pre for a repeated civil second",
+                3: "convert(2011-07-01 12:00:00, America/New_York) is not lookup().pre for a unique civil second",
+                10: "convert(time_point, America/New_York) is not lookup(tp).cs"}.get(r, "convert panel failed (%d)" % r)
+    return common.isolated(run, timeout=60)
